@@ -40,6 +40,13 @@ def pandas_hook(name, node, args, kwargs, st, ex, recv):
             return sp.Function("MEAN_axis%s" % kwargs.get("axis", ""))(ex.S(recv))
         except ExtractError:
             return NotImplemented
+    if meth == "replace" and recv is not None and len(node.args) == 2:
+        a0, a1 = unparse(node.args[0]).replace(" ", ""), unparse(node.args[1])
+        if a0 in ("[np.inf,-np.inf]", "[-np.inf,np.inf]", "(np.inf,-np.inf)") and a1 in ("np.nan", "float('nan')", "numpy.nan"):
+            try:
+                return sp.Function("INF_TO_NAN")(ex.S(recv))
+            except ExtractError:
+                return NotImplemented
     if meth == "round" and recv is not None and not args:
         return sp.Function("ROUND")(ex.S(recv))
     if name in ("np.exp", "np.log"):
@@ -238,7 +245,38 @@ def run(repo, chk):
     wsa = repo.func(HYDM, "water_service_availability")
     ex = SymExec(call_hook=pandas_hook)
     o = ex.run(wsa)[0]
-    chk.expect(is_zero(ex.S(o.ret) - ex.sym("demand") / ex.sym("expected_demand")), "R-C20-4", "water_service_availability = demand / expected demand", loc(wsa), found=str(o.ret))
+    quot = ex.sym("demand") / ex.sym("expected_demand")
+    got_ = ex.S(o.ret)
+    chk.expect(is_zero(got_ - quot) or is_zero(got_ - sp.Function("INF_TO_NAN")(quot)), "R-C20-4", "water_service_availability = demand / expected demand", loc(wsa), found=str(o.ret))
+    chk.expect(is_zero(got_ - sp.Function("INF_TO_NAN")(quot)) or ".where(" in unparse(wsa), "R-C20-4", "water_service_availability is NaN (not +-inf) where the expected demand is 0, as documented",
+               loc(wsa), "demand.div(expected_demand) is +-inf for x / 0 with x != 0 and NaN only for 0 / 0; averages over junctions or time then become inf", found=str(o.ret))
+    # ---------------------------------------------------------------- R-C20-6 time grid and period of the expected-demand metrics
+    edf = repo.func(HYDM, "expected_demand")
+    chk.fn(edf)
+    ar = [a for a in walk(edf) if isinstance(a, ast.Assign) and unparse(a.targets[0]) == "tsteps"]
+    if not ar:
+        raise ExtractError("expected_demand: time grid `tsteps` not found")
+    first = unparse(ar[0].value).replace(" ", "")
+    # np.arange(start, end + step, step) overshoots end when (end - start) % step != 0 unless the grid is cut at end_time
+    overshoots = first == "np.arange(start_time,end_time+timestep,timestep)" and not any("<=end_time" in unparse(a.value).replace(" ", "") for a in ar[1:])
+    chk.expect(not overshoots, "R-C20-6", "expected_demand evaluates no time beyond end_time", loc(edf, ar[0]),
+               "np.arange(start, end + step, step) includes one step past end_time whenever the span is not a multiple of the timestep: the table has a row the simulator never reports "
+               "(duration 10 h, report step 3 h: 43200 s > 36000 s)", expected="grid cut at end_time", found=[norm(a) for a in ar])
+    aed = repo.func(HYDM, "average_expected_demand")
+    chk.fn(aed)
+    apps = [c for c in calls(aed) if last_attr(c) == "append" and unparse(c.func.value) == "L"]
+    if not apps:
+        raise ExtractError("average_expected_demand: list of pattern periods not found")
+    guarded = False
+    q = apps[0]
+    while q is not None and q is not aed:
+        pq = getattr(q, "_parent", None)
+        if isinstance(pq, ast.If) and "len(" in unparse(pq.test) and ("> 0" in unparse(pq.test) or "!= 0" in unparse(pq.test) or ">= 1" in unparse(pq.test)):
+            guarded = True
+        q = pq
+    chk.expect(guarded, "R-C20-6", "average_expected_demand leaves patterns without multipliers out of the common period", loc(aed, apps[0]),
+               "an empty pattern is legal (the constant 1.0); its length 0 makes lcm(...) = 0, the averaging window empty and every average NaN", expected="if len(pattern.multipliers) > 0",
+               found=norm(apps[0]))
     td = repo.func(HYDM, "todini_index")
     chk.fn(td)
     ex = SymExec(call_hook=pandas_hook)
@@ -349,6 +387,9 @@ def run(repo, chk):
 
 
 WITNESSES = [
+    dict(name="wsa-inf-for-zero-expected-demand", file=HYDM, old="    wsa = wsa.replace([np.inf, -np.inf], np.nan)  # expected demand 0: NaN, as documented\n", new="", rule="R-C20-4"),
+    dict(name="expected-demand-overshoots-end-time", file=HYDM, old="    tsteps = tsteps[tsteps <= end_time]  # the last step does not pass end_time when the span is not a multiple of the timestep\n", new="", rule="R-C20-6"),
+    dict(name="empty-pattern-zeroes-the-period", file=HYDM, old="        if len(pattern.multipliers) > 0:  # an empty pattern is the constant 1.0 and has no period\n            L.append(", new="        if True:\n            L.append(", rule="R-C20-6"),
     dict(name="energy-hydraulic-timestep", file=ECON, old="    energy = power * wn.options.time.report_timestep # J = Ws", new="    energy = power * wn.options.time.hydraulic_timestep # J = Ws", rule="R-C20-4"),
     dict(name="power-g", file=ECON, old="    power = 1000.0 * 9.81 * headloss * flowrate / efficiency", new="    power = 1000.0 * 9.8 * headloss * flowrate / efficiency", rule="R-C20-4"),
     dict(name="power-times-efficiency", file=ECON, old="headloss * flowrate / efficiency", new="headloss * flowrate * efficiency", rule="R-C20-4"),
